@@ -318,12 +318,14 @@ class VisitBoom(Exception):
     pass
 
 
-def make_visit(prog, calls):
+def make_visit(prog, calls, seen_ids, keep_alive):
     def visit(path, key, value):
         p = [key_tok(x) for x in path]
         k = key_tok(key)
         s = shallow(value)
         calls.append([p, k, s])
+        seen_ids.append(id(value) if type(value) in KNAME else None)
+        keep_alive.append(value)
         for q, a in prog:
             if eval_pred(q, p, k, s):
                 if a[0] == "drop":
@@ -367,7 +369,8 @@ def run_impl(case):
             return ["O", in_ids[id(v)]] if id(v) in in_ids else ["X"]
         return ["L", leaf_tok(v)]
 
-    calls = []
+    calls, seen_ids, keep_alive = [], [], []
+    out_ser = None
     try:
         kw = {} if case.get("reraise") is None else {"reraise_visit": case["reraise"]}
         if case.get("hooks"):
@@ -388,8 +391,9 @@ def run_impl(case):
         if case["visit"] is None:
             out = remap(root, **kw)
         else:
-            out = remap(root, make_visit(case["visit"], calls), **kw)
-        obs["out"] = ["ok", Ser(alias=in_ids).ser(out)]
+            out = remap(root, make_visit(case["visit"], calls, seen_ids, keep_alive), **kw)
+        out_ser = Ser(alias=in_ids)
+        obs["out"] = ["ok", out_ser.ser(out)]
     except VisitBoom:
         obs["out"] = ["raise", "VisitBoom"]
     except TypeError:
@@ -397,6 +401,8 @@ def run_impl(case):
     except RecursionError:
         obs["out"] = ["raise", "RecursionError"]
     obs["calls"] = calls
+    # which object of the output graph each call was handed (its number in the serialisation of the output)
+    obs["call_ids"] = [out_ser.ids.get(i) if (out_ser is not None and i is not None) else None for i in seen_ids]
     obs["in_after"] = Ser(ids=s_in.ids).ser(root)
     entries = []
     try:
@@ -533,9 +539,9 @@ def to_coq(case, obs):
         "(%s, %s, %s)" % (cpath(p), "Ok %s" % coref(g[1]) if g[0] == "ok" else "Raise KeyError",
                           "true" if d else "false") for p, g, d in obs.get("probes", [])) + "]"
     qr = "None" if case.get("qraise") is None else "(Some %s)" % cpred(case["qraise"])
-    return "mkCase %s %s %s %s %s %s %s %s %s %s %s %s %s %s" % (
+    return "mkCase %s %s %s %s %s %s %s %s %s %s %s %s %s %s %s" % (
         cobj(obs["in"]), visit, "false" if case.get("reraise") is False else "true", out,
-        calls, cobj(obs["in_after"]), cpred(case["query"]), qr, "true" if case.get("qreraise") else "false", ents,
+        calls, "[" + "; ".join("None" if i is None else "Some %d" % i for i in obs["call_ids"]) + "]", cobj(obs["in_after"]), cpred(case["query"]), qr, "true" if case.get("qreraise") else "false", ents,
         cobj(obs["in_final"]), hooks, probes, dc)
 
 
